@@ -24,7 +24,9 @@ COMPONENTS = {
 
 DELIMS = [("=", "=", "="), (":", ":", ":"), ("spaces", " \t\x0c\n\r\x0b", " "), ("= ", "= ", "="), ("\\t=", "\t=", "\t"), (" \\t", " \t", " "),
           # several different escapes in one option value (each is translated by its own pass over a shared static buffer)
-          ("=\\t\\f", "=\t\x0c", "="), ("= \\t\\n", "= \t\n", "="), (":\\v\\t", ":\x0b\t", ":"), ("\\f=\\t", "\x0c=\t", "=")]
+          ("=\\t\\f", "=\t\x0c", "="), ("= \\t\\n", "= \t\n", "="), (":\\v\\t", ":\x0b\t", ":"), ("\\f=\\t", "\x0c=\t", "="),
+          # the empty delimiter set: every line is a key (files like /etc/shells)
+          ("", "", "")]
 
 
 def contents(rng, fid, shape, dch, multiline=False):
@@ -46,6 +48,18 @@ def contents(rng, fid, shape, dch, multiline=False):
 def _contents(rng, fid, shape, dch):
     ents = []
     n = 0
+    if dch == "":
+        # key-only lines.  The tool prints "key = " WITHOUT a line end for a key that has no value, so two such keys in a
+        # row cannot be told from one key with a value: for this delimiter choice only exit status, error location and
+        # the list of consulted files are compared, not the listed content
+        if shape in ("nogroup", "both"):
+            for k in rng.subset(["/bin/sh", "alpha", "two words", "beta%d" % fid], 1, 3):
+                ents.append([None, k, ""])
+        if shape in ("sections", "both"):
+            for s in rng.subset(["secA", "secB"], 1, 2):
+                for k in rng.subset(["/usr/bin/zsh", "delta", "eps %d" % fid], 1, 2):
+                    ents.append([s, k, ""])
+        return ents
     if shape in ("nogroup", "both"):
         for k in rng.subset(["al", "alpha", "beta", "gamma", "alpha_2", "ALPHA"], 1, 4):        # incl. keys that are prefixes of later keys
             n += 1
@@ -242,7 +256,7 @@ def check(world, plans, results):
     # show
     if (show["exit"] != 0) != lib_fail:
         v.fail("show:status", "econftool show exits with %r but the library returns %r for the same tree" % (show["exit"], lib["rc"]))
-    elif not lib_fail:
+    elif not lib_fail and world["delim"][1] != "":
         ti = sorted(tool_items(show["out"]), key=str)
         li = sorted(lib_items(tagged(plan, res, "lib_dump")), key=str)
         if ti != li:
@@ -275,12 +289,14 @@ def check(world, plans, results):
             for m in members:
                 exp += lib_items(m)
             got = tool_items(cat["out"])
-            if got != exp:
+            if got != exp and world["delim"][1] != "":
                 v.fail("cat:content", "econftool cat content differs from the per-file listings: expected %r got %r" % (exp[:5], got[:5]))
     nfiles = len(world["nodes"])
     v.nontrivial = nfiles >= 2 and world["shape"] == "both"
     v.sig = sig_of(world["shape"], min(nfiles, 5), world["delim"][0], world["comment"], bool(world.get("malformed")), world["single"], lib["rc"], world.get("multiline"),
                    sorted(set(n["p"].split("/")[-2][-2:] + str(len(n.get("entries", []))) for n in world["nodes"])))
+    if world["delim"][1] == "":
+        v.probe("empty_delimiter_set_key_only_lines")
     if world.get("multiline"):
         v.probe("multiline_values")
     v.probe("shape_" + world["shape"])
